@@ -1457,6 +1457,11 @@ pub fn scen_fix(m: &Model, setup: &Setup, solves: usize, out: &mut Out) {
     let solver = Solver::with_options(setup.opts.to_solver_options());
     let mut built = build(solver, m, false, false, setup.style_seed);
     out.push(format!("model {}", m.emit()));
+    // `allow_holes_in_domain` of the cumulative constraints (the time-table model needs it)
+    out.push(format!(
+        "cumopts {}",
+        m.cons.iter().map(|c| c.cumopt().map(|o| if o.holes { "1" } else { "0" }).unwrap_or("-")).collect::<Vec<_>>().join(" ")
+    ));
     if let Some(i) = built.failed_at {
         out.meta(format!("posterr at={} kind={}", i, m.cons[i].full_kind()));
         out.push("fix root conflict");
